@@ -10,6 +10,8 @@
 (* fail with different errors, M and N have no rows (M covers the whole    *)
 (* query range and knows an interface nobody else has).                    *)
 (* PoolFlat: the same without time labels ("iface,sip").                   *)
+(* Several hosts carry a row with the counters <<6, 6, 6, 6>> under        *)
+(* different keys: rows that tie under every sort key and direction.       *)
 (***************************************************************************)
 EXTENDS HostMerge
 
@@ -21,14 +23,17 @@ H(name, err, status, rows, tot, stats, hits, ifaces, first, last) ==
 
 PoolTime == <<
   H("A", "", "ok",
-    {R(K(1, "eth0", "hA", "1", 1), "utc", <<10, 20, 1, 2>>), R(K(2, "eth0", "hA", "1", 1), "utc", <<7, 0, 3, 0>>)},
-    <<17, 20, 4, 2>>, <<1000, 4000, 7, 0, 2, 3>>, 2, {"eth0"}, 100, 200),
+    {R(K(1, "eth0", "hA", "1", 1), "utc", <<10, 20, 1, 2>>), R(K(2, "eth0", "hA", "1", 1), "utc", <<7, 0, 3, 0>>),
+     R(K(2, "eth0", "hA", "1", 3), "utc", <<6, 6, 6, 6>>)},
+    <<23, 26, 10, 8>>, <<1000, 4000, 7, 0, 2, 3>>, 3, {"eth0"}, 100, 200),
   H("B", "", "ok",
-    {R(K(1, "eth1", "hB", "2", 1), "+02", <<100, 200, 10, 20>>), R(K(3, "eth0", "hB", "2", 2), "+02", <<1, 2, 3, 4>>)},
+    {R(K(1, "eth1", "hB", "2", 1), "+02", <<100, 200, 10, 20>>), R(K(3, "eth0", "hB", "2", 2), "+02", <<1, 2, 3, 4>>),
+     R(K(2, "eth1", "hB", "2", 3), "+02", <<6, 6, 6, 6>>)},
     <<500, 600, 70, 80>>, <<500, 900, 3, 1, 1, 1>>, 5, {"eth0", "eth1"}, 50, 150),
   H("A2", "", "ok",
-    {R(K(1, "eth0", "hA", "1", 1), "utc", <<1, 1, 1, 1>>), R(K(3, "eth0", "hA", "1", 2), "utc", <<4, 4, 2, 2>>)},
-    <<5, 5, 3, 3>>, <<64, 128, 2, 0, 1, 1>>, 2, {"eth0"}, 120, 300),
+    {R(K(1, "eth0", "hA", "1", 1), "utc", <<1, 1, 1, 1>>), R(K(3, "eth0", "hA", "1", 2), "utc", <<4, 4, 2, 2>>),
+     R(K(3, "eth0", "hA", "1", 3), "utc", <<6, 6, 6, 6>>)},
+    <<11, 11, 9, 9>>, <<64, 128, 2, 0, 1, 1>>, 3, {"eth0"}, 120, 300),
   H("A3", "", "ok",
     {R(K(1, "eth0", "hA", "1", 1), "+02", <<5, 0, 1, 0>>), R(K(2, "eth0", "hA", "1", 2), "+02", <<9, 9, 9, 9>>)},
     <<14, 9, 10, 9>>, <<32, 32, 1, 0, 1, 1>>, 2, {"eth0"}, 90, 210),
@@ -40,10 +45,11 @@ PoolTime == <<
 
 PoolFlat == <<
   H("A", "", "ok",
-    {R(K(0, "eth0", "hA", "1", 1), "-", <<10, 20, 1, 2>>), R(K(0, "eth0", "hA", "1", 2), "-", <<7, 0, 3, 0>>)},
-    <<17, 20, 4, 2>>, <<1000, 4000, 7, 0, 2, 3>>, 2, {"eth0"}, 100, 200),
+    {R(K(0, "eth0", "hA", "1", 1), "-", <<10, 20, 1, 2>>), R(K(0, "eth0", "hA", "1", 2), "-", <<7, 0, 3, 0>>),
+     R(K(0, "eth0", "hA", "1", 4), "-", <<6, 6, 6, 6>>)},
+    <<23, 26, 10, 8>>, <<1000, 4000, 7, 0, 2, 3>>, 3, {"eth0"}, 100, 200),
   H("B", "", "ok",
-    {R(K(0, "eth1", "hB", "2", 1), "-", <<100, 200, 10, 20>>)},
+    {R(K(0, "eth1", "hB", "2", 1), "-", <<100, 200, 10, 20>>), R(K(0, "eth1", "hB", "2", 5), "-", <<6, 6, 6, 6>>)},
     <<500, 600, 70, 80>>, <<500, 900, 3, 1, 1, 1>>, 5, {"eth0", "eth1"}, 50, 150),
   H("A2", "", "ok",
     {R(K(0, "eth0", "hA", "1", 1), "-", <<1, 1, 1, 1>>), R(K(0, "eth0", "hA", "1", 3), "-", <<4, 4, 2, 2>>)},
